@@ -69,7 +69,41 @@ pub fn generate(rng: &mut Rng, focus: &str, thorough: bool) -> Case {
     o.cat = false;
     o.lockouts = rng.chance(0.25);
     o.base_speed = (10.0, 26.0);
-    let links = gen_network(rng, &o);
+    let mut links = gen_network(rng, &o);
+    // Sidings (and some mains) made of several links, as in the repository's own networks: only then can a
+    // train wait inside a siding, clear of the main, and opposing trains be on the line at the same time.
+    if rng.chance(0.75) {
+        let nf = n_fwd(o.n_sidings);
+        for i in 1..=nf {
+            let is_main = (i - 1) % 3 == 0;
+            let len = links[i].length.value;
+            // the terminal mains stay whole (origin / destination = one link, longer than any train)
+            if is_main && (i == 1 || i == nf || !rng.chance(0.3)) {
+                continue;
+            }
+            if !is_main && rng.chance(0.1) {
+                continue;
+            }
+            if len < 300.0 {
+                continue;
+            }
+            // stub - body - stub, or two halves, or one stub
+            let stub = (rng.usize(3, 20) as f64 * 10.0).min(len / 4.0).round();
+            match rng.below(4) {
+                0 => {
+                    split_link(&mut links, i, (len / 2.0).round());
+                }
+                1 => {
+                    split_link(&mut links, i, len - stub);
+                }
+                _ => {
+                    let j = split_link(&mut links, i, stub);
+                    let lj = links[j].length.value;
+                    split_link(&mut links, j, lj - stub);
+                }
+            }
+        }
+    }
     let n = match focus {
         "C15" => rng.usize(1, 3),
         _ => match rng.below(10) {
@@ -340,6 +374,11 @@ fn on_alt_branch(v: &[EstTime], mut i: usize) -> bool {
 // ------------------------------------------------------------------------------------------------
 
 struct Obs {
+    /// per train: (committed node sequence, free idx) at the previous snapshot
+    prev_committed: Vec<Vec<(u32, u8, u32)>>,
+    committed_changed: u64,
+    stale_blocks: u64,
+    fwd: Vec<bool>,
     links: Vec<Link>,
     n_trains: usize,
     spacing: f64,
@@ -429,7 +468,11 @@ fn observe(s: &verif_hooks::DispatchSnapshot) {
                 let (p, n) = (&w[0], &w[1]);
                 if p.clear_entry.value.is_finite() && n.arrive_entry.value.is_finite() {
                     let ne = entry(ob, l, i + 1, n);
-                    if ne < p.clear_entry.value + ob.spacing - T_EPS {
+                    // "following each other" = consecutive users of the physical segment: when a train of the
+                    // opposite direction ran over it in between, the later train follows that one (and must
+                    // wait for it to clear, which the disjointness clause above decides)
+                    let opposing_between = auths[f].iter().enumerate().skip(1).any(|(ib, b)| b.train_idx != n.train_idx && b.clear_exit.value.is_finite() && b.clear_exit.value > p.clear_exit.value - T_EPS && entry(ob, f, ib, b) < ne + T_EPS);
+                    if ne < p.clear_entry.value + ob.spacing - T_EPS && !opposing_between {
                         add(ob, "following trains keep the configured headway", format!("link {l}: train {:?} enters at {ne:.1}, previous train {:?} cleared the entry at {:.1} (headway {})", n.train_idx.map(|t| t.get()), p.train_idx.map(|t| t.get()), p.clear_entry.value, ob.spacing), sig1("final", is_final));
                     }
                 }
@@ -449,8 +492,10 @@ fn observe(s: &verif_hooks::DispatchSnapshot) {
             let listers: Vec<usize> = views.iter().enumerate().skip(1).filter(|(_, v)| !v.is_finished && v.link_idxs_blocking.iter().any(|l| l.idx() == x)).map(|(i, _)| i).collect();
             match b {
                 Some(t) => {
+                    // a stale block (nobody lists the link any more) only over-blocks: safe, so a reach probe
+                    // and not a verdict; a block attributed to the wrong one of several listers is the same
                     if !listers.contains(&(t.get() as usize)) {
-                        add(ob, "blocked-link table consistent with the trains' own lists", format!("links_blocked[{x}] = train {} which does not list it (listers {:?})", t.get(), listers), Sig::new());
+                        ob.stale_blocks += 1;
                     }
                 }
                 None => {
@@ -459,6 +504,24 @@ fn observe(s: &verif_hooks::DispatchSnapshot) {
                     }
                 }
             }
+        }
+        // history fact: nodes a train has already passed (before its free node) are never replaced while
+        // another train moves (only the moving train itself may rewind, and only back to its fixed node)
+        if ob.prev_committed.len() != views.len() {
+            ob.prev_committed = vec![vec![]; views.len()];
+        }
+        for (i, v) in views.iter().enumerate().skip(1) {
+            let key = |d: &DispNode| (d.link_event.link_idx.idx() as u32, match d.link_event.est_type { EstType::Arrive => 0u8, EstType::Clear => 1, _ => 2 }, d.est_idx);
+            let lim = if Some(i) == s.train_idx_curr.map(|t| t.get() as usize) { v.disp_node_idx_fixed } else { v.disp_node_idx_free };
+            let n = lim.map(|x| x.get() as usize).unwrap_or(0).min(v.disp_path.len());
+            let now: Vec<(u32, u8, u32)> = v.disp_path[..n].iter().map(key).collect();
+            let prev = &ob.prev_committed[i];
+            let m = prev.len().min(now.len());
+            if Some(i) != s.train_idx_curr.map(|t| t.get() as usize) && prev[..m] != now[..m] {
+                ob.committed_changed += 1;
+            }
+            let nf = v.disp_node_idx_free.map(|x| x.get() as usize).unwrap_or(0).min(v.disp_path.len());
+            ob.prev_committed[i] = v.disp_path[..nf].iter().map(key).collect();
         }
         // probes: rewinds and re-routes
         if ob.last_free.len() != views.len() {
@@ -486,11 +549,28 @@ fn observe(s: &verif_hooks::DispatchSnapshot) {
             ob.trace ^= views[ti].time_update.value.to_bits();
         }
         let _ = ob.n_trains;
+        if std::env::var_os("ALTSIM_TRACE_DSP").is_some() {
+            let row: Vec<String> = views
+                .iter()
+                .enumerate()
+                .skip(1)
+                .map(|(i, v)| {
+                    let lk = |n: DispNodeIdx| n.map(|k| v.disp_path.get(k.get() as usize).map(|d| format!("{}{}", d.link_event.link_idx.idx(), if d.link_event.est_type == EstType::Arrive { "a" } else { "c" })).unwrap_or("?".into())).unwrap_or("-".into());
+                    format!("T{i}[front {} back {} fixed {} free {} t={:.0}{}{}]", lk(v.disp_node_idx_front), lk(v.disp_node_idx_back), lk(v.disp_node_idx_fixed), lk(v.disp_node_idx_free), v.time_update.value, if v.is_blocked { " BLOCKED" } else { "" }, if v.is_finished { " done" } else { "" })
+                })
+                .collect();
+            if is_final {
+                for (i, v) in views.iter().enumerate().skip(1) {
+                    eprintln!("T{i} path: {}", v.disp_path.iter().map(|d| format!("{}{}@{:.0}/t{:.0}", d.link_event.link_idx.idx(), match d.link_event.est_type { EstType::Arrive => "a", EstType::Clear => "c", _ => "f" }, d.offset.value, d.time_pass.value)).collect::<Vec<_>>().join(" "));
+                }
+            }
+            eprintln!("snap {} {} moved {:?}: {}", ob.calls, s.phase, s.train_idx_curr.map(|t| t.get()), row.join(" "));
+        }
         // reach: how many trains are simultaneously on the line, and in which directions
         let en_route: Vec<usize> = views.iter().enumerate().skip(1).filter(|(_, v)| !v.is_finished && v.disp_node_idx_front.is_some()).map(|(i, _)| i).collect();
         if en_route.len() >= 2 {
             ob.two_en_route += 1;
-            let dirs: Vec<bool> = en_route.iter().map(|i| views[*i].disp_path.iter().find(|n| n.link_event.est_type == EstType::Arrive).map(|n| n.link_event.link_idx.idx() <= ob.links.len() / 2).unwrap_or(true)).collect();
+            let dirs: Vec<bool> = en_route.iter().map(|i| ob.fwd.get(*i - 1).copied().unwrap_or(true)).collect();
             if dirs.iter().any(|d| *d) && dirs.iter().any(|d| !*d) {
                 ob.opposing_en_route += 1;
             }
@@ -579,10 +659,11 @@ pub fn execute(case: &Case, ctx: &mut Ctx) {
     // ---- dispatch under the observer ----
     ctx.layer = "dispatch";
     OBS.with(|o| {
-        *o.borrow_mut() = Some(Obs { links: links.clone(), n_trains: n, spacing: 8.0 * 60.0, calls: 0, viol: vec![], first_seen: BTreeMap::new(), last_free: vec![], last_path: vec![], rewinds: 0, reroutes: 0, two_en_route: 0, opposing_en_route: 0, moves: vec![], final_views: vec![], budget_hit: false, trace: 0 })
+        *o.borrow_mut() = Some(Obs { prev_committed: vec![], committed_changed: 0, stale_blocks: 0, fwd: case.trains.iter().map(|t| t.fwd).collect(), links: links.clone(), n_trains: n, spacing: 8.0 * 60.0, calls: 0, viol: vec![], first_seen: BTreeMap::new(), last_free: vec![], last_path: vec![], rewinds: 0, reroutes: 0, two_en_route: 0, opposing_en_route: 0, moves: vec![], final_views: vec![], budget_hit: false, trace: 0 })
     });
     verif_hooks::set_dispatch_observer(Some(observe));
-    let res = run_dispatch(links, &sims, ets.clone(), false, false);
+    let tr = std::env::var_os("ALTSIM_TRACE_DSP").is_some();
+    let res = run_dispatch(links, &sims, ets.clone(), tr, tr);
     verif_hooks::set_dispatch_observer(None);
     let ob = OBS.with(|o| o.borrow_mut().take()).unwrap();
     ctx.add("stat.observer_calls", ob.calls);
@@ -590,6 +671,12 @@ pub fn execute(case: &Case, ctx: &mut Ctx) {
     ctx.trace.u(ob.trace);
     if ob.rewinds > 0 {
         ctx.add("probe.dispatch.rewind", ob.rewinds);
+    }
+    if ob.committed_changed > 0 {
+        ctx.add("probe.dispatch.reroute_replaced_nodes_already_passed", ob.committed_changed);
+    }
+    if ob.stale_blocks > 0 {
+        ctx.add("probe.dispatch.snapshots_with_stale_block_entry", ob.stale_blocks);
     }
     if ob.reroutes > 0 {
         ctx.add("probe.dispatch.reroute", ob.reroutes);
@@ -630,7 +717,7 @@ pub fn execute(case: &Case, ctx: &mut Ctx) {
                     ctx.hit("probe.dispatch.departure_delayed");
                 }
                 // siding B of a pair = the alternate link
-                if p.iter().any(|x| { let l = x.link_idx.idx(); let nf = n_fwd(case.n_sidings); let f = if l > nf { 2 * nf + 1 - l } else { l }; f >= 3 && f % 3 == 0 }) {
+                if p.iter().any(|x| { let l = x.link_idx.idx(); let nf = n_fwd(case.n_sidings); let f = if l > 2 * nf { 0 } else if l > nf { 2 * nf + 1 - l } else { l }; f >= 3 && f % 3 == 0 }) {
                     ctx.hit("probe.dispatch.alternate_siding_used");
                 }
             }
@@ -821,4 +908,61 @@ pub fn shrink(case: &Case) -> Vec<Case> {
         out.push(c);
     }
     out
+}
+
+
+/// Calibration against the repository's own network: `altsim taconite <t_fwd,...> <t_rev,...>` dispatches the
+/// shipped forward / reverse example trains over python/altrios/resources/networks/Taconite.yaml under the
+/// observer (same monitors as the generated scenarios). Returns the violations found.
+pub fn taconite(fwd: &[f64], rev: &[f64]) -> anyhow::Result<Vec<(String, String)>> {
+    let net = <Network as altrios_core::traits::SerdeAPI>::from_file("/repo/python/altrios/resources/networks/Taconite.yaml")?;
+    let links = net.0.clone();
+    let mut sims = vec![];
+    for t in fwd {
+        let mut s = altrios_core::train::speed_limit_train_sim_fwd();
+        s.state.time = *t * uc::S;
+        sims.push(s);
+    }
+    for t in rev {
+        let mut s = altrios_core::train::speed_limit_train_sim_rev();
+        s.state.time = *t * uc::S;
+        sims.push(s);
+    }
+    let mut ets = vec![];
+    for s in &sims {
+        ets.push(make_est_times(s.clone(), &links)?.0);
+    }
+    OBS.with(|o| {
+        *o.borrow_mut() = Some(Obs { prev_committed: vec![], committed_changed: 0, stale_blocks: 0, fwd: fwd.iter().map(|_| true).chain(rev.iter().map(|_| false)).collect(), links: links.clone(), n_trains: sims.len(), spacing: 8.0 * 60.0, calls: 0, viol: vec![], first_seen: BTreeMap::new(), last_free: vec![], last_path: vec![], rewinds: 0, reroutes: 0, two_en_route: 0, opposing_en_route: 0, moves: vec![], final_views: vec![], budget_hit: false, trace: 0 })
+    });
+    verif_hooks::set_dispatch_observer(Some(observe));
+    let tr = std::env::var_os("ALTSIM_TRACE_DSP").is_some();
+    let res = std::panic::catch_unwind(std::panic::AssertUnwindSafe(|| run_dispatch(&links, &sims, ets.clone(), tr, tr)));
+    verif_hooks::set_dispatch_observer(None);
+    let ob = OBS.with(|o| o.borrow_mut().take()).unwrap();
+    eprintln!("observer calls {} rewinds {} reroutes {} two_en_route {} opposing_en_route {}", ob.calls, ob.rewinds, ob.reroutes, ob.two_en_route, ob.opposing_en_route);
+    let mut out: Vec<(String, String)> = ob.viol.into_iter().map(|v| (v.0, v.1)).collect();
+    match res {
+        Err(_) => { let (m, l) = crate::take_last_panic(); out.push(("panic".into(), format!("{l}: {m}"))) }
+        Ok(Err(e)) => eprintln!("dispatch error: {e:#}"),
+        Ok(Ok(plans)) => {
+            for (t, p) in plans.iter().enumerate() {
+                eprintln!("plan {t}: {} links, {:.0} .. {:.0} s", p.len(), p.first().map(|x| x.time.value).unwrap_or(0.0), p.last().map(|x| x.time.value).unwrap_or(0.0));
+            }
+        }
+    }
+    Ok(out)
+}
+
+
+/// facts about the dispatch history so far, for the signature of a panic inside run_dispatch
+pub fn panic_sig() -> Sig {
+    let mut sg = Sig::new();
+    OBS.with(|o| {
+        if let Some(ob) = o.borrow().as_ref() {
+            sg.insert("reroute_replaced_nodes_already_passed".into(), (ob.committed_changed > 0).into());
+            sg.insert("observer_calls".into(), (ob.calls as f64).into());
+        }
+    });
+    sg
 }
